@@ -59,6 +59,8 @@ def run(ctx, rep):
     rep.guarded("R02-FOLD", lambda: c02.r_fold(ctx.shape, rep, btab.BuiltinTables(ctx.shape)))
     rep.rule("R10-CURRYDEF", "builtin currying emits closed definitions: discharges the optimiser's final `try_from(..).unwrap()` for hoisted partial applications (shared with C02)", floor=2)
     rep.guarded("R10-CURRYDEF", lambda: c02.r_currydef(ctx.shape, rep, "R10-CURRYDEF"))
+    rep.rule("R10-FOLDOUT", "the constant folder leaves no constant the flat encoder refuses (discharges the serialiser's unwrap on compiler output; shared with C02)", floor=20)
+    rep.guarded("R10-FOLDOUT", lambda: c02.r_foldout(ctx.shape, rep, btab.BuiltinTables(ctx.shape), "R10-FOLDOUT"))
     rep.rule("R10-BIGINTSITE", "no reader of a Data integer handles the 64-bit form only and aborts on the rest (shared with C04)", floor=2)
     rep.guarded("R10-BIGINTSITE", lambda: c04.r_bigintsites(ctx.shape, rep, "R10-BIGINTSITE"))
     secs = {}
